@@ -78,13 +78,15 @@ struct Case {
   int T, cmode, hmode;
   vsched::Config sc;
   uint64_t dataseed;
+  bool echo = false;
+  int hint = 0;
 };
 const char *KIND[] = {"real-enc", "real-dec", "real-verify", "tag-enc", "tag-dec", "forged-dec", "enc-eio", "dec-eio", "enc-enospc", "dec-enospc", "enc-then-dec"};
 const char *STRAT[] = {"uniform", "sticky", "pct", "starve"};
 
 std::string case_json(const Case &c, long long idx) {
   vh::J j;
-  j.num("idx", idx).str("kind", KIND[c.kind]).num("n", (long long)c.n).num("T", c.T).num("cmode", c.cmode).num("hmode", c.hmode).num("chunk", (long long)VH_CHUNK);
+  j.num("idx", idx).str("kind", KIND[c.kind]).num("n", (long long)c.n).num("T", c.T).num("cmode", c.cmode).num("hmode", c.hmode).num("chunk", (long long)VH_CHUNK).num("echo", c.echo).num("size_arg", c.hint);
   j.str("strategy", STRAT[c.sc.strategy]).num("sticky", c.sc.sticky_pct).num("spurious", c.sc.spurious_pct).num("pct_depth", c.sc.pct_depth);
   j.str("sched_seed", std::to_string(c.sc.seed)).str("data_seed", std::to_string(c.dataseed));
   return j.done();
@@ -130,6 +132,8 @@ Case make_case(uint64_t seed, long long idx, const std::string &grid, bool thoro
   c.sc.pct_horizon = 50 + 40 * (c.n / 16 + c.T);
   c.sc.step_bound = thorough ? 2000000 : 400000;
   c.sc.cpu_bound_s = 4;
+  c.echo = r.chance(25);
+  c.hint = r.chance(30) ? 1 + (int)r.below(2) : 0;
   return c;
 }
 
@@ -142,6 +146,8 @@ std::string run_case(const Case &c) {
   r.fill(key, 16);
   bytes seed = ops::gen_seed(r);
   bytes P = r.bytes_(c.n);
+  ops::force_echo() = c.echo;
+  ops::size_hint_mode() = c.hint;
   vsched::init(c.sc, failfn);
   vsched::install_cpu_handler();
   bool ret = true;
